@@ -2,7 +2,8 @@
    msgs  = '-' or comma list of  <fnhex>:<size>:<contenthex or V>      (V = cannot be opened)
    lines = '-' or comma list of hex command lines (without the LF)
    ops   = '-' or comma list of U:<fnhex> | R:<srchex>:<dsthex>
-   blast <contenthex> <limit> -> hex *)
+   blast <contenthex> <limit> -> hex
+   popup <bannerhex> x,<line>,<line>... <crashed01> <exitcode> -> "<hex replies incl. what follows the subprogram> <fd3 hex|none>" *)
 let parse_msg s = match String.split_on_char ':' s with
   | [f; sz; c] -> { p_fn = bytes_of_hex f; p_size = n_of_int (int_of_string sz); p_content = (if c = "V" then None else Some (bytes_of_hex c)) }
   | _ -> failwith "msg"
@@ -13,6 +14,11 @@ let () = iter_lines (fun line ->
       let (o, ops) = session (init_state (lst parse_msg ms)) (lst bytes_of_hex ls) in
       hex_of_bytes o ^ " " ^ (if ops = [] then "-" else String.concat "," (List.map (function
         | QUnlink f -> "U:" ^ hex_of_bytes f | QRename (a, b) -> "R:" ^ hex_of_bytes a ^ ":" ^ hex_of_bytes b) ops))
+    | ["popup"; b; ls; cr; ec] ->
+      let (o, a) = popup_session (bytes_of_hex b) ust0 (List.map bytes_of_hex (List.tl (String.split_on_char ',' ls))) in
+      (match a with
+       | None -> hex_of_bytes o ^ " none"
+       | Some f -> hex_of_bytes (o @ after_auth (cr = "1") (n_of_int (int_of_string ec))) ^ " " ^ hex_of_bytes f)
     | ["blast"; c; l] -> hex_of_bytes (pop3_blast (bytes_of_hex c) (n_of_int (int_of_string l)))
     | _ -> "?" in
   print_string out; print_char '\n')
